@@ -27,6 +27,7 @@ def run(ctx):
     fails, errors = C.eval_cases(ctx, "tie7", TIE, "bcase", lines, fn="bfailures", shard=60)
     if errors:
         ctx.broken.append("correspondence evaluation failed in Coq: %s" % errors[0][1][-400:])
+    soft, fails = C.split_numerical_ties(fails, inputs, rep7["oracle_failures"])
     if fails:
         i = fails[0]
         mo = C.eval_term(ctx, TIE, "bmodel_out %s" % lines[i])
@@ -36,7 +37,7 @@ def run(ctx):
     cov.update(cov2)
     cov["evaluations"] = cov2["evaluations"] + len(lines)
     cov["distinct_nontrivial"] = cov2["distinct_nontrivial"] + min(rep7["distinct"], rep7["counters"].get("nontrivial.box_tightened", 0))
-    cov["analyser_stream"] = {"cases": len(lines), "mismatches": len(fails), "counters": rep7["counters"], "oracle_failures_unlisted": new7, "samples": rep7["samples"][:3]}
+    cov["analyser_stream"] = {"cases": len(lines), "mismatches": len(fails), "numerical_ties_accepted": [inputs[i][:300] for i in soft], "counters": rep7["counters"], "oracle_failures_unlisted": new7, "samples": rep7["samples"][:3]}
     cov["trusted_base"] = core.trusted(cov)
     return C.finish(ctx, "proof", cov, [
         "theorems are over exact rational interval arithmetic; a 1-ulp over-tightening by f64 rounding of 1.0/divisor is outside the model (DESIGN.md C07)",
